@@ -15,7 +15,8 @@ MODEL = 'HpackModel'
 
 
 def model_check(ctx):
-    ctx.model_check(MODEL, 'HpackModel_t.cfg' if ctx.tier == 'thorough' else 'HpackModel.cfg')
+    # explicit heaps: the machine is shared, the JVM default (1/4 of RAM per process) invites the OOM killer
+    ctx.model_check(MODEL, 'HpackModel_t.cfg' if ctx.tier == 'thorough' else 'HpackModel.cfg', heap='6g' if ctx.tier == 'thorough' else '3g')
 
 
 def record(ctx, cmd, modes, out, extra=()):
@@ -41,7 +42,7 @@ def validate(ctx, prefix, label):
     workers = max(2, vlib.NCPU // max(1, len(files)))
 
     def one(f):
-        return f, ctx.tlc('HpackTrace', 'HpackTrace.cfg', workers=workers, env={'VERIF_TRACE': f}, heap='6g')
+        return f, ctx.tlc('HpackTrace', 'HpackTrace.cfg', workers=workers, env={'VERIF_TRACE': f}, heap='4g')
 
     with concurrent.futures.ThreadPoolExecutor(max_workers=len(files) or 1) as ex:
         results = list(ex.map(one, files))
@@ -119,13 +120,19 @@ def report(ctx, prefix, label, bad, selfbad, kind, max_violations=5):
     # one example per class (smallest trace id), every unknown class is a violation
     want = {}
     nviol = 0
-    for t, cls, classes, mode, op in sorted(chosen):
-        if cls in known:
-            if cls not in want:
-                want[cls] = (t, classes, mode, op)
-        elif nviol < max_violations:
-            want[('V', t, mode)] = (t, classes, mode, op)
-            nviol += 1
+    seen_sig = set()
+    for distinct_first in (True, False):   # violations: one per distinct signature first, then fill up
+        for t, cls, classes, mode, op in sorted(chosen):
+            if cls in known:
+                if cls not in want:
+                    want[cls] = (t, classes, mode, op)
+            elif nviol < max_violations and ('V', t, mode) not in want:
+                sig = (tuple(classes), mode)
+                if distinct_first and sig in seen_sig:
+                    continue
+                seen_sig.add(sig)
+                want[('V', t, mode)] = (t, classes, mode, op)
+                nviol += 1
     lines = fetch_lines(prefix, [v[0] for v in want.values()])
     examples = ctx.extra.setdefault('known_finding_examples', {})
     for key, (t, classes, mode, op) in want.items():
